@@ -103,7 +103,15 @@ def all_nodes(date, data_cols, functions=None, extra_targets=(), group_specs=Non
     import networkx as nx
 
     dt = default_targets()
-    fno, fo = function_table(date, data_cols, list(dt) + list(extra_targets), functions, group_specs, pid_specs)
+    try:
+        fno, fo = function_table(date, data_cols, list(dt) + list(extra_targets), functions, group_specs, pid_specs)
+    except ValueError as e:
+        # before 2009 some default targets do not exist as functions: drop the ones reported missing
+        import re
+
+        missing = set(re.findall(r'"([^"\n]+)"', str(e)))
+        dt = [t for t in dt if t not in missing]
+        fno, fo = function_table(date, data_cols, list(dt) + [t for t in extra_targets if t not in missing], functions, group_specs, pid_specs)
     args = {n: [a for a in arg_names(f) if not a.endswith("_params")] for n, f in fno.items()}
     g = nx.DiGraph()
     for n, a in args.items():
